@@ -22,7 +22,7 @@ RULE = ("case = multi-script repertoire (1-3 of Latn/Cyrl/Grek/Arab/Hebr/Deva/Hi
         "(disjoint public.kern1/2 partitions; glyph-glyph, glyph-group, group-glyph, group-group "
         "keys with deliberate exceptions incl. zero; fractional/negative values; keys naming "
         "missing / non-exported glyphs and unknown groups) x categories on/off x languagesystems "
-        "none/some/all x quantization {1,5} x {KernFeatureWriter, legacy kernFeatureWriter2}; "
+        "none/some/all x quantization {1,5} (5 %: three same-direction scripts whose kerning script sets overlap only pairwise, in an order that needs repeated merging) x {KernFeatureWriter, legacy kernFeatureWriter2}; "
         "every ordered glyph pair (<= 30 glyphs) is evaluated under every script tag of the "
         "ScriptList; distinct = sha1 of the case; non-trivial = GPOS compiled and >= 1 non-zero "
         "judged pair")
